@@ -284,6 +284,36 @@ def per_connection(F, R):
         R.ob('C17.per-connection', '%s.%s|owned-map' % (adt, fld), ty is not None and 'Rc<' not in ty and 'Arc<' not in ty, 'field type %s' % ty)
 
 
+def alias_table_lifetime(F, R):
+    """Topic Alias mappings last for the Network Connection: once registered, a binding is only ever replaced by a re-binding
+    of the same alias. Nothing clears the table, removes entries or replaces the struct that holds it while the connection
+    lives (a "give memory back when idle" reset makes the next alias-only PUBLISH an unknown-alias protocol error)."""
+    n = 0
+    for b in F.bodies.values():
+        if not re.match(r'^<?v5::(client::)?(dispatcher|router)', b.path):
+            continue
+        for bi, t in b.calls_to(r'^std::collections::HashMap::<K, V, S, A>::(clear|remove|remove_entry|drain|retain|extract_if)$'):
+            if 'aliases' in (call_recv_path(b, t, 0) or ()):
+                n += 1
+                R.ob('C17.per-connection', '%s|aliases.%s|bindings-are-never-dropped' % (top(b), callee_name(t).split('::')[-1]), False,
+                     'an alias binding is removed while the connection lives: a later PUBLISH that uses the alias is refused as unknown (or resolved to nothing)', b.loc(bi))
+        for bi, j, s in b.assigns():
+            lhs = s['lhs']
+            pj = place_proj(lhs)
+            whole = pj == ['*'] and re.search(r'^&mut v5::(client::)?dispatcher::PublishInfo$|^&mut v5::router::RouterService', b.local_ty(lhs['l']) or '')
+            fld = place_fields(lhs)[-1:] == ['aliases']
+            if whole or fld:
+                n += 1
+                R.ob('C17.per-connection', '%s|%s-overwritten|bindings-are-never-dropped' % (top(b), 'PublishInfo' if whole else 'aliases'), False,
+                     'the alias table (or the struct holding it) is replaced by a fresh value while the connection lives: every binding the peer registered is forgotten', b.loc(bi))
+    R.counts['C17.per-connection:alias table resets found'] = n
+    R.ob('C17.per-connection', 'alias-table|no-reset-site', n == 0, '%d place(s) drop alias bindings' % n)
+
+
+def top(b):
+    return re.sub(r'(::\{(closure|inl)#\d+\})+$', '', b.path)
+
+
 def route_on_resolved(F, R):
     b = F.one(r'^<v5::router::RouterService<Err> as ntex_service::Service<v5::publish::Publish>>::call::\{closure#0\}$')
     recs = [(bi, t) for bi, t in b.calls_to(r'ntex_router::Router::<U>::recognize$|Router.*::recognize$')]
@@ -316,4 +346,5 @@ def run(F, R):
             alias_rules(F, R, d)
     negotiated_max(F, R)
     per_connection(F, R)
+    alias_table_lifetime(F, R)
     route_on_resolved(F, R)
